@@ -178,7 +178,7 @@ class MetricReceiver(CarbonServerProtocol, TimeoutMixin):
     if datapoint[0] != datapoint[0] or datapoint[0] in (float('inf'), float('-inf')):
       return
     # use current time if none given: https://github.com/graphite-project/carbon/issues/54
-    if int(datapoint[0]) == -1:
+    if datapoint[0] == -1:
       datapoint = (time.time(), datapoint[1])
     res = settings.MIN_TIMESTAMP_RESOLUTION
     if res:
